@@ -20,6 +20,10 @@ TEXT = {
          "About 70 functions grouped in 14 laws: exact references for integer inputs, forward-error bounds for reals, documented exceptions for empty/mismatched input, shift-equivariance / bounds / finiteness for the log-domain reductions, exhaustive lattice for pairwise logsum. Exploration."),
  "C08": ("dense grids + random points + seeded branch points vs Boost.Math long double reference, exact identities and a bracket oracle for quantiles",
          "Accuracy vs an independent high-precision reference (self-checked against glibc and a series), range/end values, monotonicity on adjacent points, exact identities, quantile inversion by bracketing, documented error signals in the invalid region. Exploration over ~1e6 points per quick run."),
+ "C09": ("stateful generated histories on every distribution family vs invariants and an external (Boost long double) cdf; exhaustive family x class-count x scheme lattice",
+         "After construction and after every operation of a generated history (parameter updates accepted and rejected, class-count change, median toggle, restriction, copy, assign) all partition invariants are checked: class count, probabilities, strictly increasing values inside their intervals, bounds, class mass vs the parent's cdf and vs an independent reference, mean-valued classes, parent cdf/quantile/expectation consistency, value lookup, cumulative queries, compound distributions. Exploration; the construction lattice (family x K=1..32 x scheme x median) is exhaustive."),
+ "C10": ("generated objectives (convex quadratics with prescribed spectrum, smooth convex non-quadratics) x optimizers x policies x tolerances vs clause-wise oracles on the recorded evaluation trace",
+         "One law per clause: termination (CPU watchdog), descent, returned value = function at reported parameters, evaluation budget, convergence within calibrated per-optimizer constants, feasibility of every evaluated point under the automatic policy, bracketing validity. The objective records every evaluation. Exploration."),
  "C11": ("rapidcheck-generated bound configurations / values / coordinates vs long-double formulas, finite differences and the chain rule; exhaustive configuration lattice",
          "Round trip, monotonicity, derivatives of the transforms; wrapped functions with analytic derivatives checked for value, feasibility of the back-transformed point, chain rule, parameters right after wrapping, placebo pass-through; exhaustive lattice of the ten configurations x bounds x start positions x wrapper kinds. Exploration."),
  "C12": ("stateful generated update histories on polynomial functions with analytic derivatives; exhaustive configuration lattice; step-halving metamorphic law",
@@ -28,6 +32,8 @@ TEXT = {
          "Every rooted labelled tree (Pruefer sequence x root) with all roots, all node pairs and node sets is compared with a reference tree for validity, father/sons/branches/leaves-under/subtree/paths/MRCA, re-rooting (edge ids and attached objects kept) and un-rooting; all forward-edge DAGs on <= 5 nodes plus cyclic variants; edit histories with validity asked or not asked between edits. Exploration; exhaustive up to the stated node counts."),
  "C16": ("coverage-guided fuzzing (libFuzzer, ASan+UBSan) of 14 entry-point groups with structure-aware decoding, dictionary, seeds and in-target semantic oracles",
          "One libFuzzer target per group of parsing entry points; bytes are decoded into option flags / characters and subject strings; bpp::Exception is a clean rejection, any other exception type, sanitizer report, division trap, malloc/rss limit or confirmed timeout is a violation; cheap semantic oracles (token/cursor consistency, table shape, split re-concatenation) run inside the targets. Exploration: ~1e5 executions per target in the quick tier, ~5e7 in the thorough tier."),
+ "C17": ("round-trip and grammar laws: exhaustive string enumeration for the number grammar (length <= 6/7) and wildcard matching (length <= 6/8), generated strings / maps / tables / distributions otherwise",
+         "Number formatting/parsing round trips on all bit-pattern classes; the strict decimal grammar decided on every string over a 9-letter alphabet up to length 6 (quick) / 7 (thorough) against a reference recogniser and strtod; tokenise/re-join, nested tokenising, procedures, changeKeyvals, variable resolution, wildcard matching against a glob DP (exhaustive up to length 6/8), table and distribution write/read. Exploration; exhaustive up to the stated lengths."),
  "C18": ("seeded statistical property tests (Kolmogorov-Smirnov / chi-square at 1e-9 against the library's own cdfs) + structural laws + exhaustive small margins",
          "Every case carries its own library seed (reproducibility law included); continuous samplers and each distribution's draws are tested against the cumulative function of the same parameters (n = 20 000, KS threshold 3.6/sqrt(n)); picks, samples and multinomials against their weights and structural constraints; random contingency tables against exact margins for all margin pairs with total <= 8 (exhaustive) and random margins up to 5x5/200; <= 2000 statistical tests per run at 1e-9 each. Exploration with stated power, not certainty."),
  "C19": ("rapidcheck-generated parameter / probability vectors vs long-double definitions of the three codings; exhaustive dyadic lattice for n<=7",
